@@ -7,6 +7,7 @@ CONSTANTS
   DomKinds <- KindsTiny
   MaxAges <- MaxAgesFull
   Expiries <- ExpiriesNone
+  Sessions = FALSE
   Schemes = {"http", "https"}
   MaxSteps = 3
   MaxTime = 13
